@@ -297,6 +297,9 @@ Fixpoint eval_stmts (ss:list stmt) (result:list (string*value)) (sc:scope) : out
       '(r, sc1) <- ev sc e ;;
       eval_stmts ss' (map_put x r result) sc1
   end.
+(* arg.GetName() == ".": the parser's spelling of a transform without an argument *)
+Definition is_dot_name (e:expr) : bool := match e with EName x => String.eqb x "." | _ => false end.
+
 Definition eval_transform_stmts (ss:list stmt) (sc:scope) : res :=
   '(result, sc1) <- eval_stmts ss [] sc ;;
   match sget implied_result sc1 with
@@ -339,9 +342,8 @@ Definition after_iteration (k:sv_after) (sv:string) (saved:option value) (sc:sco
 (* evalTransform.  The deferred function restores the scope variable (when the source does: transform_scopevar)
    and "." when they were bound when the transform started (after the argument was evaluated). *)
 Definition eval_transform (sc:scope) (arg:expr) (sv:string) (ss:list stmt) (ty:ttype) : res :=
-  match arg with
-  | EName "." => Ok (VNil, sc)
-  | _ =>
+  if is_dot_name arg then Ok (VNil, sc)
+  else
     '(argv, sc0) <- ev sc arg ;;
     let finish (sc':scope) : outcome scope :=
       sc1 <- after_iteration transform_scopevar sv (sget sv sc0) sc' ;;
@@ -364,8 +366,7 @@ Definition eval_transform (sc:scope) (arg:expr) (sv:string) (ss:list stmt) (ty:t
           '(r, sc1) <- eval_transform_stmts ss (sset sv argv sc0) ;; sc2 <- finish sc1 ;; Ok (r, sc2)
     | _ =>
         '(r, sc1) <- eval_transform_stmts ss (sset sv argv sc0) ;; sc2 <- finish sc1 ;; Ok (r, sc2)
-    end
-  end.
+    end.
 
 Definition is_internal_map (m:list (string*value)) : bool :=
   match m with
@@ -409,18 +410,19 @@ Definition eval_call (vs:views) (sc:scope) (fn:string) (args:list expr) : res :=
         Ok (r, sc1)
   | None =>
       match is_dot_func fn with
-      | Some "count" =>
-          match args with
-          | [] => Panic
-          | a :: _ =>
-              '(c, sc1) <- ev sc a ;;
-              match c with
-              | VList l | VSet l => Ok (VInt (Z.of_nat (List.length l)), sc1)
-              | VMap m => Ok (VInt (Z.of_nat (List.length m)), sc1)
-              | _ => Panic
-              end
-          end
-      | Some _ => Panic
+      | Some f =>
+          if String.eqb f "count" then
+            match args with
+            | [] => Panic
+            | a :: _ =>
+                '(c, sc1) <- ev sc a ;;
+                match c with
+                | VList l | VSet l => Ok (VInt (Z.of_nat (List.length l)), sc1)
+                | VMap m => Ok (VInt (Z.of_nat (List.length m)), sc1)
+                | _ => Panic
+                end
+            end
+          else Panic
       | None => Unmodelled          (* evalGoFunc *)
       end
   end.
